@@ -1,7 +1,8 @@
 /-
 Line-protocol driver for C08 (`p3r_driver_c08`). One command per stdin line:
 
-  grp <gid> p <P> arity <2|4> width <W> rate <R> dig <DG> caph <h> perm <toy|table> nbits <n>
+  grp <gid> p <P> arity <2|4> width <W> rate <R> dig <DG> caph <h> perm <toy|table> nbits <n> checks <hwc>
+                                      hwc = three 0/1 digits: gadget has the height gate / width check / cap-bits check
   mat <m> <height> <inner width>      claimed dimensions (inner view: base coefficients + salt)
   tab <W inputs> | <W outputs>        one recorded permutation pair (perm table mode)
   case <cid> idx <index>              start a case (clears rows / siblings / cap)
@@ -41,6 +42,7 @@ structure Grp where
   caph : Nat
   table : Bool
   nbits : Nat
+  chk : Checks
   dims : List Dim
   tab : Std.HashMap (List Nat) (List Nat)
 
@@ -56,6 +58,12 @@ structure St where
   c : Option Case
 
 def parseNats (ws : List String) : Option (List Nat) := ws.mapM String.toNat?
+
+def parseChecks (s : String) : Option Checks :=
+  match s.toList with
+  | [h, w, c] =>
+    if [h, w, c].all (fun x => x == '0' || x == '1') then some ⟨h == '1', w == '1', c == '1'⟩ else none
+  | _ => none
 
 def fnv (trace : List (List Nat)) : UInt64 :=
   trace.foldl (fun h row => row.foldl (fun h x => (h ^^^ x.toUInt64) * 0x100000001b3) h) 0xcbf29ce484222325
@@ -90,8 +98,8 @@ def runCase (g : Grp) (c : Case) : String :=
   let bits : List K := (List.range g.nbits).map fun k => PF.ofNat ((c.idx >>> k) % 2)
   let pc : PermCfg := { W := g.W, rate := g.rate, capw := g.dig, arity4 := g.arity == 4 }
   let (cv, st) :=
-    if g.arity == 2 then verifyCircuit2 perm pc cap g.dims bits streams sibs
-    else verifyCircuit4 perm pc cap g.dims bits streams sibs
+    if g.arity == 2 then verifyCircuit2 g.chk perm pc cap g.dims bits streams sibs
+    else verifyCircuit4 g.chk perm pc cap g.dims bits streams sibs
   let tr := st.trace.reverse.map (·.map (·.val))
   let (n, h) := match cv with
     | .ok | .reject => (tr.length, fnv tr)
@@ -102,14 +110,14 @@ def step (st : St) (line : String) : St × List String :=
   let ws := ((line.replace "\n" "").splitOn " ").filter (· ≠ "")
   match ws with
   | [] => (st, [])
-  | ["grp", _, "p", p, "arity", a, "width", w, "rate", r, "dig", d, "caph", ch, "perm", pm, "nbits", nb] =>
-    match parseNats [p, a, w, r, d, ch, nb] with
-    | some [p, a, w, r, d, ch, nb] =>
+  | ["grp", _, "p", p, "arity", a, "width", w, "rate", r, "dig", d, "caph", ch, "perm", pm, "nbits", nb, "checks", ck] =>
+    match parseNats [p, a, w, r, d, ch, nb], parseChecks ck with
+    | some [p, a, w, r, d, ch, nb], some chk =>
       if (pm == "toy" || pm == "table") && (a == 2 || a == 4) then
         ({ g := some { p, arity := a, W := w, rate := r, dig := d, caph := ch, table := pm == "table", nbits := nb,
-                       dims := [], tab := {} }, c := none }, [])
+                       chk, dims := [], tab := {} }, c := none }, [])
       else (st, ["bad-op"])
-    | _ => (st, ["bad-op"])
+    | _, _ => (st, ["bad-op"])
   | ["mat", m, h, w] =>
     match st.g, parseNats [m, h, w] with
     | some g, some [m, h, w] =>
